@@ -829,3 +829,35 @@ func GapState(q *T, b bool) *T {
 	}
 	return &gT
 }
+
+// ---- recursion whose results change places ----
+
+func SwapRec(n int) (*T, *T) {
+	if n <= 0 {
+		return nil, new(T)
+	}
+	b, a := SwapRec(n - 1)
+	return a, b
+}
+
+func SwapRecIface(n int) (any, any) {
+	if n <= 0 {
+		return nil, 1
+	}
+	b, a := SwapRecIface(n - 1)
+	return a, b
+}
+
+func MutualA(n int) *T {
+	if n <= 0 {
+		return nil
+	}
+	return MutualB(n - 1)
+}
+
+func MutualB(n int) *T {
+	if n <= 0 {
+		return new(T)
+	}
+	return MutualA(n - 1)
+}
